@@ -70,9 +70,15 @@ impl FileInfo {
         }
     }
 
-    pub fn add_field_list(&mut self, fields: Vec<Field>) {
+    pub fn add_field_list(&mut self, fields: Vec<Field>) -> Result<(), RuntimeError> {
+        // a wider list would make PUT write into the records that follow
+        let total_width: usize = fields.iter().map(|field| field.width).sum();
+        if total_width > self.rec_len {
+            return Err(RuntimeError::FieldOverflow);
+        }
         self.current_field_list_index = Some(self.field_lists.len());
         self.field_lists.push(fields);
+        Ok(())
     }
 
     pub fn get_field_lists(&self) -> &Vec<Vec<Field>> {
@@ -215,10 +221,8 @@ impl FileManager {
         handle: FileHandle,
         fields: Vec<Field>,
     ) -> Result<(), RuntimeError> {
-        // TODO if sum(field width) > rec_len, throw error
         let file_info = self.try_get_file_info(&handle)?;
-        file_info.add_field_list(fields);
-        Ok(())
+        file_info.add_field_list(fields)
     }
 
     pub fn mark_current_field_list(&mut self, variable_name: &str) -> Result<(), RuntimeError> {
